@@ -211,6 +211,9 @@ def tag_case(suite, ti, sk, which):
     (which="POP_TAG") is TAGS[ti]: its signatures are the model's for that tag and for no other"""
     tag = TAGS[ti]
     base = BL.suite_cls(suite)
+    # history: the stock suite is used first, the derived one afterwards
+    BL.call(base.Sign, 3, b"warm")
+    BL.verdict(base.Verify, MB.sk_to_pk(3), b"warm", MB.sign(suite, 3, b"warm"))
     C = type("Custom", (base,), {which: tag})
     msg = b"abc"
     pk = MB.sk_to_pk(sk)
